@@ -1,4 +1,5 @@
 import LenaModel.Lemmas.C12
+import LenaModel.Model.C12Spec
 import LenaModel.Lemmas.C12Hist
 /-! # C12 — lemmas about the CSV part of the model: the rows of `hist1d_to_csv` and `hist2d_to_csv` as list
 functions of edges and contents.  Core Lean only. -/
@@ -6,11 +7,6 @@ namespace Lena.C12
 open Lena Lena.NArr
 
 /-! ### CSV rows of one-dimensional histograms -/
-
-/-- bins of a one-dimensional histogram -/
-def bins1d (vals : List Q) : NArr Q := .node (vals.map .leaf)
-/-- bins of a two-dimensional histogram -/
-def bins2d (vals : List (List Q)) : NArr Q := .node (vals.map bins1d)
 
 theorem rows1dLoop_spec (vals : List Q) : ∀ (xs : List Q) (k : Nat), xs.length ≤ (vals.drop k).length →
     rows1dLoop (vals.map .leaf) xs k = .ok (List.zipWith (fun x v => [x, v]) xs (vals.drop k))
@@ -41,11 +37,6 @@ theorem rows1d_spec (xs vals : List Q) (xLast vLast : Q) (vs : List Q) (hv : val
 theorem cell2d_spec (vals : List (List Q)) (i j : Nat) (r : List Q) (v : Q) (hr : vals[i]? = some r)
     (hv : r[j]? = some v) : cell2d (bins2d vals) i j = .ok v := by
   simp [cell2d, bins2d, bins1d, hr, hv]
-
-/-- the rows written for one `x`: one per `y` bin, plus the duplicate of the last one at the last `y` edge -/
-def rowsFor (ys : List Q) (yLast : Q) (dup : Bool) (x : Q) (r : List Q) : List (List Q) :=
-  List.zipWith (fun y v => [x, y, v]) ys r ++
-    (if dup then (match r.getLast? with | some v => [[x, yLast, v]] | none => []) else [])
 
 theorem rows2dInner_spec (vals : List (List Q)) (x : Q) (i : Nat) (r : List Q) (hr : vals[i]? = some r) :
     ∀ (ys : List Q) (j : Nat) (last : Option Q), (r.drop j).length = ys.length →
@@ -183,9 +174,6 @@ theorem cellsFrom_leaves : ∀ (l : List Q) (k : Nat),
 
 theorem cells_bins1d (vals : List Q) : cells (bins1d vals) = vals.zipIdx.map (fun p => ([p.2], p.1)) := by
   simp [bins1d, cells, cellsFrom_leaves vals 0]
-
-/-- the lower edges of the cell `idx`, then its content: the CSV row of a cell -/
-def cellRow (axes : List (List Q)) (p : List Nat × Q) : List Q := (cellEdgesRef axes p.1).map (·.1) ++ [p.2]
 
 theorem rows1d_eq_cells (xLast : Q) : ∀ (vals pre xs : List Q), xs.length = vals.length →
     List.zipWith (fun x v => [x, v]) xs vals =
